@@ -263,8 +263,19 @@ func (x *Exec) safety(fr *Frame, st *State, in ssa.Instruction, kind string, goa
 	if label == "" {
 		label = x.instrText(fr, in)
 	}
-	o := x.newObl(fr.fn, kind, label, []string{"C07"}, x.posStr(in.Pos()))
+	o := x.newObl(fr.fn, kind, label, x.safetyProps(), x.posStr(in.Pos()))
 	st.check(o, goal)
+}
+
+// safetyProps: a panic violates C07 and every postcondition of the function being verified.
+func (x *Exec) safetyProps() []string {
+	props := []string{"C07"}
+	if x.contract != nil {
+		for _, cl := range x.contract.Ensures {
+			props = unionProps(props, cl.Props)
+		}
+	}
+	return props
 }
 
 func (x *Exec) finish(st *State, end string) {
